@@ -383,6 +383,20 @@ impl Gen {
         let map = self.map_json(&segs, ns, nn, first);
         if self.cfg.custom && self.rng.gen_bool(0.3) {
           json!({"k": "default", "b": name_json(&t), "map": [map]})
+        } else if self.cfg.inner_maps && self.rng.gen_bool(0.35) {
+          // a combined map; the inner source is one of the outer sources
+          // (or not), its text given, taken from the outer content, or absent
+          let x = self.text(20);
+          let ins = self.rng.gen_range(1..=2);
+          let inn = self.rng.gen_range(0..=2);
+          let iw = self.cfg.wild_maps && self.rng.gen_bool(0.5);
+          let isegs = self.segs_for(&x, ins, inn, iw);
+          let ifirst = self.rng.gen_range(0..3);
+          let imap = self.map_json(&isegs, ins, inn, ifirst);
+          let name = if self.rng.gen_bool(0.85) { FILES[first % 3] } else { "other.js" };
+          let osrc: Vec<Value> = if self.rng.gen_bool(0.5) { vec![name_json(&x)] } else { vec![] };
+          json!({"k": "sms", "b": name_json(&t), "name": name_json(name),
+                 "map": map, "inner": [imap], "osrc": osrc, "remove": self.rng.gen_bool(0.3)})
         } else {
           json!({"k": "sms", "b": name_json(&t), "name": name_json("gen.js"),
                  "map": map, "inner": [], "osrc": [], "remove": false})
@@ -492,6 +506,91 @@ fn map(r: u64, columns: bool) -> Value {
   json!({"op": "map", "r": r, "columns": columns})
 }
 
+/// arbitrary strings for the mappings decoder
+fn junk_steps(g: &mut Gen) -> Vec<Value> {
+  let mut steps = vec![];
+  for _ in 0..8 {
+    let mut m: Vec<u8> = vec![];
+    let n = g.rng.gen_range(0..40);
+    for _ in 0..n {
+      match g.rng.gen_range(0..12) {
+        0..=4 => m.push(B64[g.rng.gen_range(0..64)]),
+        5 => m.push(b','),
+        6 => m.push(b';'),
+        7 => {
+          // a long run of continuation digits, maybe terminated
+          let k = g.rng.gen_range(1..45);
+          let d = B64[g.rng.gen_range(32..64)];
+          for _ in 0..k {
+            m.push(if g.rng.gen_bool(0.7) { d } else { b'/' });
+          }
+          if g.rng.gen_bool(0.7) {
+            m.push(B64[g.rng.gen_range(0..32)]);
+          }
+        }
+        8 => m.extend_from_slice(g.pick(&[&b" "[..], b"!", b"\n", b"\"", b"=", b"-", b"\\"])),
+        9 => m.extend_from_slice("\u{e9}\u{20ac}".as_bytes()),
+        10 => m.extend_from_slice(b"+/+/+/D"),
+        _ => m.extend_from_slice(b"gggggggggggggggggggggggggA"),
+      }
+    }
+    steps.push(json!({"op": "decode", "m": bytes_json(&m)}));
+  }
+  steps
+}
+
+/// arbitrary bytes for the three JSON entry points
+fn parser_steps(g: &mut Gen) -> Vec<Value> {
+  let valid: &[&str] = &[
+    r#"{"version":3,"sources":["a.js"],"names":["x"],"mappings":"AAAA","sourcesContent":["a"],"file":"o.js"}"#,
+    r#"{"mappings":";"}"#,
+    r#"{"version":3,"sources":[null,"b"],"sourcesContent":[null],"names":[null],"mappings":"","sourceRoot":"r","debugId":"d"}"#,
+    r#"{"version":3,"mappings":"AAAA","x":{"y":[1,2,{"z":null}]},"sources":[]}"#,
+  ];
+  let mut steps = vec![];
+  for _ in 0..6 {
+    let mut b: Vec<u8> = match g.rng.gen_range(0..8) {
+      0 => (0..g.rng.gen_range(0..40)).map(|_| g.rng.gen()).collect(),
+      1 => {
+        let d = g.rng.gen_range(1..3000);
+        let mut v = vec![b'['; d];
+        v.extend(vec![b']'; if g.rng.gen_bool(0.5) { d } else { d / 2 }]);
+        v
+      }
+      2 => {
+        let d = g.rng.gen_range(1..2000);
+        let mut v = br#"{"mappings":"","x":"#.to_vec();
+        v.extend(vec![b'['; d]);
+        v.extend(vec![b']'; d]);
+        v.push(b'}');
+        v
+      }
+      3 => br#"{"version":1e999,"mappings":"A","sources":[1e400,-0,18446744073709551616]}"#.to_vec(),
+      4 => br#"{"mappings":12}"#.to_vec(),
+      _ => valid[g.rng.gen_range(0..valid.len())].as_bytes().to_vec(),
+    };
+    // mutate
+    match g.rng.gen_range(0..6) {
+      0 if !b.is_empty() => {
+        let cut = g.rng.gen_range(0..b.len());
+        b.truncate(cut);
+      }
+      1 if !b.is_empty() => {
+        let i = g.rng.gen_range(0..b.len());
+        b[i] = g.rng.gen();
+      }
+      2 => {
+        let i = g.rng.gen_range(0..=b.len());
+        b.insert(i, g.pick(&[b'"', b'\\', b'{', b'[', 0u8, 0xffu8, b',']));
+      }
+      _ => {}
+    }
+    let via = g.pick(&["json", "slice", "reader"]);
+    steps.push(json!({"op": "parse", "via": via, "b": bytes_json(&b)}));
+  }
+  steps
+}
+
 /// random sorted mapping sequences (big values included) and random
 /// strings of the v3 grammar
 fn codec_steps(g: &mut Gen) -> Vec<Value> {
@@ -559,6 +658,7 @@ pub fn generate(kind: &str, seed: u64, count: usize, out: &str) {
   std::panic::set_hook(Box::new(|_| {}));
   let cfg = match kind {
     "stream_any" | "views" => Cfg::any(),
+    "wild" => Cfg { inner_maps: true, custom: true, ..Cfg::any() },
     "replace_hist" => Cfg { depth: 1, wild_maps: false, ..Cfg::any() },
     "orig_trees" => Cfg { sms: false, cached_under_replace: false, depth: 4, max_text: 30, ..Cfg::ascii() },
     "laws" | "concat_children" | "replace_inner" | "sms_leaf" | "combined" => Cfg { depth: 2, ..Cfg::ascii() },
@@ -569,6 +669,12 @@ pub fn generate(kind: &str, seed: u64, count: usize, out: &str) {
   let mut pid = 0u64;
   while (pid as usize) < count {
     g.reset_program();
+    if kind == "decoder_junk" || kind == "parser_bytes" {
+      let steps = if kind == "decoder_junk" { junk_steps(&mut g) } else { parser_steps(&mut g) };
+      writeln!(f, "{}", json!({"pid": pid, "steps": steps})).unwrap();
+      pid += 1;
+      continue;
+    }
     if kind == "codec" {
       let steps = codec_steps(&mut g);
       writeln!(f, "{}", json!({"pid": pid, "steps": steps})).unwrap();
